@@ -40,6 +40,7 @@ type C16Case struct {
 	Max     int      `json:"max"`     // constructor argument
 	Queries []string `json:"queries"` // Go-quoted
 	Ops     []C16Op  `json:"ops"`
+	CLI     *C16CLI  `json:"cli,omitempty"` // when set: the CLI part (process histories), the fields above are unused
 }
 
 var c16Contexts = []string{"", "git", "docker node"}
@@ -69,6 +70,10 @@ var c16Docs = []string{
 
 func genC16(rt *rapid.T) C16Case {
 	var c C16Case
+	if rapid.IntRange(0, 39).Draw(rt, "cli") == 20 {
+		c.CLI = genC16CLI(rt)
+		return c
+	}
 	c.Max = rapid.SampledFrom([]int{1, 2, 3, 5, 100, 0, -4}).Draw(rt, "max")
 	pool := []string{"disk usage", "git commit", "compress files", "find large files", "Disk Usage", "x", "größe anzeigen", "tab\tnew\nline", "quote\"back\\slash", "", " ", "bad\xffutf8"}
 	nq := rapid.IntRange(1, 5).Draw(rt, "nq")
@@ -238,6 +243,9 @@ func checkViews(sh *history.SearchHistory, m []histEntry, k int) string {
 
 func runC16(c C16Case) *Outcome {
 	o := &Outcome{Probes: map[string]int{}}
+	if c.CLI != nil {
+		return runC16CLI(c.CLI, o)
+	}
 	simtime.Install(simtime.Epoch)
 	defer simtime.Uninstall()
 	simrt.SetOrderCanonical()
